@@ -100,6 +100,7 @@ type Encoder struct {
 	monitor    monitorHooks
 	primary    bool
 	dual       bool
+	wtSeen     map[string]bool
 }
 
 type loopInfo struct {
@@ -197,6 +198,21 @@ func (e *Encoder) wellTyped(v Val, ctr string) string {
 		return and(cs...)
 	}
 	return "true"
+}
+
+// assumeCellWT: every memory cell holds a well-typed value (Go's type invariant); assumed for cells
+// read by contract expressions.
+func (e *Encoder) assumeCellWT(v Val) {
+	if e.wtSeen == nil {
+		e.wtSeen = map[string]bool{}
+	}
+	if e.wtSeen[v.S] {
+		return
+	}
+	e.wtSeen[v.S] = true
+	if w := e.wellTyped(v, ""); w != "true" {
+		e.c.assume(w)
+	}
 }
 
 func (e *Encoder) assumeWT(v Val, pc string, st *State) {
@@ -314,7 +330,7 @@ func (e *Encoder) val(v ssa.Value) Val {
 // ---------- memory ----------
 
 func (e *Encoder) envFor(st *State) *Env {
-	env := &Env{c: e.c, pkg: e.pkg, vars: map[string]Val{}, mem: st.memFn(e.c), labels: e.labels}
+	env := &Env{c: e.c, pkg: e.pkg, vars: map[string]Val{}, mem: st.memFn(e.c), labels: e.labels, freshBase: "ctr0", wt: e.assumeCellWT}
 	return env
 }
 
